@@ -13,7 +13,8 @@ from vlib import *
 
 PROPS = ['Props/Properties_C24.v']
 # absolute tolerances for inputs scaled to O(1) (|sigma| in [0.5,2], |b| <= 1, n <= 12); measured maxima go into the evidence
-TOL = {'d': 2e-10, 'f': 2e-3, 'z': 2e-10, 'c': 2e-3}
+# (measured on the unchanged tree over several seeds: all residuals <= 1.2e-14 in double and <= 5e-6 in float, i.e. about 100 x below)
+TOL = {'d': 2e-12, 'f': 2e-4, 'z': 2e-12, 'c': 2e-4}
 RCOND = {'d': 1e-8, 'f': 1e-4, 'z': 1e-8, 'c': 1e-4}
 def base(p): return 'd' if p in ('d', 'z') else 'f'
 def is_cx(p): return p in ('z', 'c')
@@ -246,7 +247,9 @@ def certificate(ctx, exe, drv, rounds, maxdim):
             est = float.fromhex(head[1])
             if sv and rank >= 1:
                 true = sv[1][rank - 1] / sv[1][0]
-                if not (true / 20 <= est <= true * 20): prob(ix, 'qtz-rcond-estimate', 'getRCondEstimate %g vs sigma_r/sigma_1 %g' % (est, true))
+                if not (true / 20 <= est <= true * 20):
+                    # at numerical rank 1 the estimate is never assigned (it keeps its initial 0): known finding
+                    prob(ix, 'qtz-rcond-rank1' if (rank == 1 and est == 0.0) else 'qtz-rcond-estimate', 'getRCondEstimate %g vs sigma_r/sigma_1 %g (rank %d)' % (est, true, rank))
             if len(secs) > 2:
                 inv = sec_mat(secs[2], cx); C.add('INV %d %s %s %s' % (dm, hexf(10 * tol), H(R(A)), H(R(inv))), ix, 'qtz-inverse', tol=10 * tol)
         elif kind == 'LU':
@@ -317,7 +320,8 @@ def certificate(ctx, exe, drv, rounds, maxdim):
             cases.append((raw, {'kind': 'EIGRAW', 'p': 'z'})); lines.append(raw); outs.append('process ended with rc=%s (signal %s) %s' % (rc, -rc if rc < 0 else 0, o.strip()[:80]))
             problems.append((len(cases) - 1, 'eigen-complex-double-raw', 'Eigen::getAllEigenValuesAndVectors on a Matrix_<complex<double>> with a default-constructed vectors argument: ' + outs[-1]))
     KNOWN_MAP = {'qtz-zero-matrix': 'qtz-zero-matrix-solve-uninitialised', 'lu-getL-getU': 'lu-getL-getU-wrong-triangles',
-                 'qtz-complex-solve': 'qtz-complex-solve-illegal-lapack-trans', 'eigen-complex-double-raw': 'eigen-complex-double-vectors-not-resized'}
+                 'qtz-complex-solve': 'qtz-complex-solve-illegal-lapack-trans', 'eigen-complex-double-raw': 'eigen-complex-double-vectors-not-resized',
+                 'qtz-rcond-rank1': 'qtz-rcond-estimate-zero-at-rank-1', 'eig-sym-ascending': 'eigen-symmetric-not-ordered'}
     seen = set()
     for ix, what, detail in problems:
         me = cases[ix][1]
